@@ -10,6 +10,7 @@ import (
 	"github.com/cube2222/octosql/config"
 	"github.com/cube2222/octosql/datasources/csv"
 	"github.com/cube2222/octosql/datasources/json"
+	"github.com/cube2222/octosql/datasources/parquet"
 	"github.com/cube2222/octosql/execution"
 	"github.com/cube2222/octosql/functions"
 	"github.com/cube2222/octosql/logical"
@@ -27,6 +28,7 @@ func physEnv() physical.Environment {
 	fileHandlers := map[string]func(ctx context.Context, name string, options map[string]string) (physical.DatasourceImplementation, physical.Schema, error){
 		"csv":  csv.Creator(','),
 		"json": json.Creator,
+		"parquet": parquet.Creator,
 	}
 	return physical.Environment{
 		Aggregates: aggregates.Aggregates,
